@@ -299,6 +299,8 @@ inline void sched_restart(const Opm::Schedule& sched, std::size_t step, const Op
         std::vector<std::string> uses;
         for (const auto& r : S.udq_active.get().iuap()) uses.push_back(r.udq + "@" + r.wgname + ":" + std::to_string((int)r.control));
         std::sort(uses.begin(), uses.end()); std::string s; for (auto& u : uses) s += u + ","; o.S("UDA/uses", "uda.uses", s);
+        // ... and the aggregated table the restart writer takes (IUAD): UDQ, control, number of users, in order
+        { std::string t; for (const auto& r : S.udq_active.get().iuad()) t += r.udq + ":" + std::to_string((int)r.control) + "x" + std::to_string(r.use_count) + "@" + std::to_string(r.use_index) + ","; o.S("UDA/iuad", "uda.iuad", t); }
     }
     // ACTIONX definitions
     {
